@@ -864,11 +864,12 @@ pub fn payload_from_args<'a>(args: &'a [DltArg<'a>]) -> Vec<u8> {
         // serialize the args
         // type_info, len and payload
         for arg in args {
+            // STRG and RAWD have a 16 bit length field (even if the payload is empty)
             let persist_len_u16 = if arg.type_info & (DLT_TYPE_INFO_STRG | DLT_TYPE_INFO_RAWD) != 0
             {
-                arg.payload_raw.len() as u16
+                Some(arg.payload_raw.len() as u16)
             } else {
-                0u16
+                None
             };
 
             let type_info = if big_endian {
@@ -877,7 +878,7 @@ pub fn payload_from_args<'a>(args: &'a [DltArg<'a>]) -> Vec<u8> {
                 arg.type_info.to_le_bytes()
             };
             payload.extend_from_slice(&type_info);
-            if persist_len_u16 > 0 {
+            if let Some(persist_len_u16) = persist_len_u16 {
                 payload.extend_from_slice(&if big_endian {
                     persist_len_u16.to_be_bytes()
                 } else {
